@@ -366,6 +366,24 @@ func stackOf(id string) string {
 	return ""
 }
 
+// ancestorAt returns the ancestor-or-self of node n at block number num (-1 = genesis).
+func (w *world) ancestorAt(n int, num uint64) int {
+	for n >= 0 && w.numOf(n) > num {
+		n = w.tree.Shape.Parent[n]
+	}
+	return n
+}
+
+// rewindTargets: if crash point k lies inside a SetHead operation, the rewind target of the head.
+func (w *world) rewindTargets(h History, units []crashx.Unit, k, head int) []int {
+	for _, idx := range []int{k - 1, k} {
+		if idx >= 0 && idx < len(units) && units[idx].Op < len(h.Ops) && h.Ops[units[idx].Op].SetHead != nil {
+			return []int{w.ancestorAt(head, uint64(*h.Ops[units[idx].Op].SetHead))}
+		}
+	}
+	return nil
+}
+
 // ---- recovery oracle ----------------------------------------------------------------------------
 
 type verdict struct {
@@ -614,6 +632,11 @@ func (w *world) faultCase(h History, pruning bool, scale, j int) (v []verdict, f
 			return append(v, verdict{"head-unknown", "in-memory head is not a block of the history"}), failed
 		}
 	}
+	if r.db.Failed != nil && r.db.Failed.Op < len(h.Ops) && h.Ops[r.db.Failed.Op].SetHead != nil {
+		for _, a := range append([]int(nil), adm...) {
+			adm = append(adm, w.ancestorAt(a, uint64(*h.Ops[r.db.Failed.Op].SetHead)))
+		}
+	}
 	return append(v, w.recoverCheck(h, pruning, im, adm)...), failed
 }
 
@@ -692,6 +715,9 @@ func worker(shard, nsh int) {
 					if next != prev {
 						adm = append(adm, next)
 					}
+					// inside a SetHead(n) the block the operation rewinds to is a head the node is making
+					// its head, although the in-memory pointer only follows at the end of the operation
+					adm = append(adm, w.rewindTargets(h, units, k, prev)...)
 					vs := w.recoverCheck(h, pruning, im.Clone(), adm)
 					res.Evals++
 					res.Counters["crash_points"]++
